@@ -570,7 +570,11 @@ class MarkdownNormalizer(Renderer):
         # Like a paragraph: a blank line written before the rule must not swallow the break
         # before the next list item.
         self._suppress_item_break = False
-        result = f"{self._prefix}* * *\n"
+        # As the first thing in a `*` bullet item the usual spelling would read `* * * *`, which is
+        # itself a rule and no longer an item: there the rule is spelled with dashes.
+        markers = self._prefix.replace(">", "").replace(" ", "")
+        rule = "- - -" if markers and set(markers) == {"*"} else "* * *"
+        result = f"{self._prefix}{rule}\n"
         self._prefix = self._second_prefix
         return result
 
